@@ -167,4 +167,89 @@ theorem pskLastB_filter_map {α : Type} (g : α → Nat) (p : α → Bool) : ∀
     · rw [List.filter_cons_of_neg hp]
       exact ih h.2
 
+/-! ### inserting one extension of a new type in the middle of a list -/
+
+theorem distinctB_insert (t : Nat) : ∀ a b : List Nat, distinctB (a ++ b) = true → t ∉ a ++ b →
+    distinctB (a ++ t :: b) = true := by
+  intro a
+  induction a with
+  | nil =>
+    intro b h ht
+    simp only [List.nil_append] at h ht ⊢
+    simp only [distinctB, Bool.and_eq_true, Bool.not_eq_true']
+    exact ⟨by simpa using ht, h⟩
+  | cons x a ih =>
+    intro b h ht
+    simp only [List.cons_append, distinctB, Bool.and_eq_true, Bool.not_eq_true'] at h ⊢
+    have hxt : x ≠ t := by intro e; apply ht; simp [e]
+    have ht' : t ∉ a ++ b := by intro hm; apply ht; simp at hm ⊢; exact .inr hm
+    refine ⟨?_, ih b h.2 ht'⟩
+    have h1 := h.1
+    simp only [List.contains_eq_mem, List.mem_append, decide_eq_false_iff_not, List.mem_cons, not_or] at h1 ⊢
+    exact ⟨h1.1, hxt, h1.2⟩
+
+theorem pskLastB_insert (t : Nat) (ht : t ≠ 41) : ∀ a b : List Nat, pskLastB (a ++ b) = true → b ≠ [] →
+    pskLastB (a ++ t :: b) = true := by
+  intro a
+  induction a with
+  | nil =>
+    intro b h _
+    simp only [List.nil_append] at h ⊢
+    simp only [pskLastB, Bool.and_eq_true, Bool.or_eq_true]
+    exact ⟨.inr (by simpa using ht), h⟩
+  | cons x a ih =>
+    intro b h hb
+    simp only [List.cons_append, pskLastB, Bool.and_eq_true, Bool.or_eq_true] at h ⊢
+    refine ⟨?_, ih b h.2 hb⟩
+    rcases h.1 with h1 | h1
+    · exfalso
+      have : a ++ b = [] := by simpa using h1
+      exact hb (List.append_eq_nil_iff.mp this).2
+    · exact .inr h1
+
+/-- a cookie (or any other extension of a type the list does not have yet, except pre_shared_key)
+inserted before at least one element keeps a spec within limits within limits: nothing is repeated,
+pre_shared_key stays last, and erasing it gives the old list back (nothing is lost). -/
+theorem specOK_insertAt (f : HelloFields) (xs : List Ext) (i : Nat) (e : Ext)
+    (hs : specOK f xs = true) (he : extOKb e = true) (hnew : ∀ x ∈ xs, typeId x ≠ typeId e)
+    (hpsk : typeId e ≠ 41) (hi : i < xs.length) :
+    specOK f (insertAt i e xs) = true ∧ (insertAt i e xs).length = xs.length + 1 ∧
+    (insertAt i e xs).eraseIdx i = xs := by
+  simp only [specOK, Bool.and_eq_true] at hs ⊢
+  obtain ⟨⟨⟨hf, hall⟩, hd⟩, hp⟩ := hs
+  have hsplit : xs.take i ++ xs.drop i = xs := List.take_append_drop i xs
+  have hmap : (insertAt i e xs).map typeId = (xs.take i).map typeId ++ typeId e :: (xs.drop i).map typeId := by
+    simp [insertAt]
+  have hmap0 : xs.map typeId = (xs.take i).map typeId ++ (xs.drop i).map typeId := by
+    rw [← List.map_append, hsplit]
+  refine ⟨⟨⟨⟨hf, ?_⟩, ?_⟩, ?_⟩, ?_, ?_⟩
+  · rw [List.all_eq_true] at hall ⊢
+    intro x hx
+    simp only [insertAt, List.mem_append, List.mem_cons] at hx
+    rcases hx with hx | rfl | hx
+    · exact hall x (List.mem_of_mem_take hx)
+    · exact he
+    · exact hall x (List.mem_of_mem_drop hx)
+  · rw [hmap]
+    apply distinctB_insert
+    · rw [← hmap0]; exact hd
+    · rw [← hmap0]
+      intro hm
+      obtain ⟨x, hx, hxe⟩ := List.mem_map.mp hm
+      exact hnew x hx hxe
+  · rw [hmap]
+    apply pskLastB_insert _ hpsk
+    · rw [← hmap0]; exact hp
+    · intro h0
+      have : (xs.drop i).length = 0 := by
+        have := congrArg List.length h0
+        simpa using this
+      rw [List.length_drop] at this
+      omega
+  · simp [insertAt, List.length_take, List.length_drop]; omega
+  · have hl : (xs.take i).length = i := by rw [List.length_take]; omega
+    simp only [insertAt]
+    rw [List.eraseIdx_append_of_length_le (by omega), hl, Nat.sub_self]
+    simp [hsplit]
+
 end Hello
